@@ -1209,8 +1209,16 @@ impl<'a> GeneratorState<'a> {
         // debug!("{:?}, {}, {}, {}", expr, pos, self.last_included_position, self.last_included_line_number);
         if self.insert_code {
             let included_source_code = self.generate_included_source_code_line(code.pos);
-            let line_number =
-                self.compiler_state.mapped_lines[self.last_included_line_number].1 - 1;
+            // last_included_line_number is now the index of the next line, which doesn't
+            // exist when the statement is on the last line
+            let line_number = match self
+                .compiler_state
+                .mapped_lines
+                .get(self.last_included_line_number)
+            {
+                Some(l) => l.1 - 1,
+                None => self.compiler_state.mapped_lines.last().map_or(0, |l| l.1),
+            };
             let line_to_be_written =
                 included_source_code.map(|line| format!("(l.{line_number}) {line}"));
             // debug!("{:?}, {}, {}", line_to_be_written, self.last_included_position, self.last_included_line_number);
